@@ -15,7 +15,10 @@ CLAIM = dict(
          'and scalar product as sums over all multi-indices (C01_sum_spec, C01_mean_spec, C01_mul_scalar_spec, C01_mul_scalar_x); '
          'first interface = entry, element gradient (C01_interface_value, C01_grad_spec); the general interface function '
          'with an index and norm=None is the list of partial products, entry by entry, for both sweeps '
-         '(C01_interface_none_right/_left, C01_interface_right_entry/_left_entry); mean with default weights is the uniform '
+         '(C01_interface_none_right/_left, C01_interface_right_entry/_left_entry); with ANY weights P and / or index i '
+         '(norm=None) the fully contracted vector of either sweep is sum_idx (prod_k w_k[idx_k]) Y[idx] with the weight vectors '
+         'the code contracts with (C01_interface_total, C01_interface_weights); <Y1-Y2,Y1-Y2> through sub and mul_scalar is the '
+         'sum of squared entry differences (C01_mul_scalar_sub_spec); mean with default weights is the uniform '
          'mean (C01_mean_default); reported shape / ranks / size of a well-formed tensor incl. size = sum_k r_k n_k r_{k+1} '
          '(C01_props, C01_props_spec); soundness of every finite expression tree over add, sub, mul, outer, number operands, '
          'copy (C01_expr_sound, C01_expr_sound_Z). (B) At the Coq reals (carrier OR01, same model terms): norm = sqrt of the '
@@ -31,8 +34,10 @@ CLAIM = dict(
          'the result is u_k/||u_k||_2, a positive multiple of the true partial product with Euclidean norm 1; the boundary '
          'vector is [1] (C01_interface_linalg_right/_left, C01_interface_boundary). Non-vacuity: C01_example, '
          'C01R_example_*. NOT proved (modelled elsewhere or only executed): the saturation branches of act_two.accuracy '
-         '(returns 0 / 1e299 / -1 through the stabilised exponents; that arithmetic is property C16) - Model/ActOneR.accuracy '
-         'is the plain branch only; linalg interface where some u_k = 0 (the code divides 0 by 0); norm(use_stab=True); '
+         '(returns 0 / 1e299 / -1 through the stabilised exponents; every branch is a theorem of property C16, '
+         'C16_accuracy_stab, in terms of sqrt<.,.>, which C01_mul_scalar_spec / C01_mul_scalar_sub_spec turn into dense norms) '
+         '- Model/ActOneR.accuracy is the plain branch only; intermediate interface vectors with weights P (only the fully '
+         'contracted one is characterised); linalg interface where some u_k = 0 (the code divides 0 by 0); norm(use_stab=True); '
          'IEEE rounding (theorems are about exact arithmetic; the rounding clause is validated by the float stream within '
          'an explicit bound). Model Model/ActOne.v + Model/Interface.v + Model/ActOneR.v mirrors act_one / act_two / act_many '
          '/ transformation.full / props / data; tied to /repo by exact correspondence on integer tensors (Z instance), '
@@ -539,8 +544,10 @@ def reals_exact_stream(R, ctx, tn):
                 if found is None or (t // len(kinds)) % 5 == 4:
                     I = [[rng.randrange(k) for k in n] for _ in range(rng.randint(1, 4))]
                     y = [0] * len(I)          # all reference values zero: the documented sentinel -1
+                    dist['acc_data_sentinel'] = dist.get('acc_data_sentinel', 0) + 1
                 else:
                     I, y = found
+                    dist['acc_data_rational'] = dist.get('acc_data_rational', 0) + 1
                 inp['I'], inp['y'] = I, y
                 cases.append(f'[sq (accuracy_on_data OQc {coq_tt_with(Y1, qleaf, "c")} '
                              f'[{"; ".join(C.natlist(i) for i in I)}] [{"; ".join(qleaf(v) for v in y)}])]')
@@ -559,8 +566,10 @@ def reals_exact_stream(R, ctx, tn):
                 P = [[rng.randint(-2, 2) for _ in range(k)] for k in n] if rng.random() < 0.4 else None
                 idx = [rng.randrange(k) for k in n] if rng.random() < 0.7 else None
                 inp = dict(kind=kind, n=n, r1=r1, Y1=[G.tolist() for G in Y1], P=P, idx=idx, ltr=ltr)
-                phi = tn.interface(Y1, P=None if P is None else [np.array(p, dtype=float) for p in P],
-                                   i=None if idx is None else np.array(idx), norm='natural' if kind == 'iface_nat' else 'linalg', ltr=ltr)
+                with np.errstate(all='ignore'):       # a zero partial product makes the linalg branch divide 0 by 0
+                    phi = tn.interface(Y1, P=None if P is None else [np.array(p, dtype=float) for p in P],
+                                       i=None if idx is None else np.array(idx),
+                                       norm='natural' if kind == 'iface_nat' else 'linalg', ltr=ltr)
                 impl = [float(x) for v in phi for x in np.asarray(v).reshape(-1)]
                 ci = 'None' if idx is None else f'(Some {C.natlist(idx)})'
                 lt = 'true' if ltr else 'false'
@@ -627,6 +636,8 @@ def reals_exact_stream(R, ctx, tn):
                                   'non-uniform profiles with rational root, accuracy_on_data incl. the -1 sentinel, norm, uniform '
                                   'mean, natural interface); 1e-12 for accuracy and for linalg interface vs u_k/||u_k||',
                        distribution=dist, first_mismatches=bad[:3]))
+    for (inp, impl, how), mv in list(zip(meta, vals))[:2]:
+        R.samples.append(dict(stream='reals-exact', input=inp, impl=impl, model=[[int(a), int(b)] for a, b in mv]))
     return bad
 
 
